@@ -3,10 +3,11 @@ C02: what happens to requests that land in the exit `sleep(0)` of `_run` (arriva
 message and before the engine closes the runs that are still open).  Evaluated on the model by the kernel;
 `./check C02` replays the same scenarios on the real RunEngine (corpus/C02).  Not proof obligations.
 
-OPEN FINDING (c): stop() accepted, RequestStop leaves the loop ('success'); an abort() arriving in the exit
-    sleep is REFUSED (TransitionError stopping -> aborting) but `_abort_coro` has already stored 'abort' and
-    the reason: the RunStop says 'abort'/'requested' (signature
-    `exit-status-after-plan-end:refused-abort-request-at-S4-while-stopping:abort-instead-of-success`).
+REPAIRED (c) (fix: commit "abort/stop/halt record nothing when the transition is refused"): stop() accepted,
+    RequestStop leaves the loop ('success'); an abort() arriving in the exit sleep is REFUSED (TransitionError
+    stopping -> aborting).  `_abort_coro` used to store 'abort' and the reason BEFORE the state assignment that
+    raised, so the RunStop said 'abort'/'requested'; it now assigns the state first and the RunStop says 'success'
+    (`refused_abort_keeps_stop`, `refused_request_stores_nothing` below are now positive statements).
 
 OBSERVATIONS, not findings (ruling: a request ACCEPTED after the plan has ended may or may not be reflected):
 (a) halt() accepted there: RunEngineInterrupted, running -> halting -> idle, RunStop says 'success'
@@ -56,21 +57,22 @@ theorem unresumable_suspend_after_plan_end_reports_success :
     finalB.trans = [(.idle, .running), (.running, .aborting), (.aborting, .idle)] ∧
     (outcomeOf "call" finalB).result = "raise:RunEngineInterrupted" ∧ stops finalB = [("success", "")] := by decide
 
-/-! (c) a refused abort overwrites the status of an accepted stop -/
+/-! (c) a refused abort leaves the status of an accepted stop alone -/
 def finalC : EState := schedule 50 [(1, [.stop]), (2, [.abort])] 1000 (startCall s0 planOpen)
 
 set_option maxRecDepth 100000 in
-theorem refused_abort_overwrites_stop :
+theorem refused_abort_keeps_stop :
     finalC.arrivals = ["S1", "S1", "S4"] ∧
     finalC.trans = [(.idle, .running), (.running, .stopping), (.stopping, .idle)] ∧
-    finalC.refused = ["abort"] ∧ stops finalC = [("abort", "requested")] := by decide
+    finalC.refused = ["abort"] ∧ stops finalC = [("success", "")] := by decide
 
-/-- the general reason for (c): a refused abort has already stored status and reason -/
-theorem refused_abort_stores (s : EState) (r : String) (h : s.state = .stopping) :
-    (requestTerminate s "abort" r).exitStatus = .abort ∧ (requestTerminate s "abort" r).reason = r ∧
-    (requestTerminate s "abort" r).state = .stopping ∧ (requestTerminate s "abort" r).refused = s.refused ++ ["abort"] := by
-  rw [requestTerminate_refused s "abort" r (by rw [h]; decide) (by rw [h]; decide)]
-  obtain ⟨p1, _, p3, p4, _⟩ := termPrep_fields s "abort" r
-  exact ⟨p4, p3, p1.trans h, rfl⟩
+/-- the general reason for (c): a refused request records nothing but the refusal -/
+theorem refused_request_stores_nothing (s : EState) (k r : String) (hi : s.state ≠ .idle)
+    (ht : (Src.transitions s.state).contains (termTarget k).1 = false) :
+    (requestTerminate s k r).exitStatus = s.exitStatus ∧ (requestTerminate s k r).reason = s.reason ∧
+    (requestTerminate s k r).interrupted = s.interrupted ∧ (requestTerminate s k r).state = s.state ∧
+    (requestTerminate s k r).refused = s.refused ++ [k] := by
+  rw [requestTerminate_refused s k r hi ht]
+  exact ⟨rfl, rfl, rfl, rfl, rfl⟩
 
 end BlueskyVerif.C02.Counterexample
